@@ -205,6 +205,22 @@ def case_linear_projected(**p):
     bad = [sym.s_cmp('lt', sym.s_abs(sym.s_sub(o[1, u], o[0, u])), sym.s_abs(sym.s_sub(o2[1, u], o2[0, u]))) for u in range(units)]
     case.solve('projected-weights-give-dominant-step-at-least-weak-step[%d,%d]' % (d, k), core.any_of(bad), assumptions=rel,
                witness=dict(w=W, x=x, y=y), timeout=tmo, sig=dict(query='mdom-projected'), inline_replay=lambda m, d=d, k=k: rp(m, 'mdom', d, k))
+  if p.get('norm') == 1:
+    # with normalization_order=1 every unit's projected column has L1 norm 1, or is the all-zero column - unit by unit
+    bad = []
+    for u in range(units):
+      tot = 0
+      for i in range(n):
+        tot = sym.s_add(tot, sym.s_abs(K[i, u]))
+      # clearly neither the unit norm nor a (numerically) zero column
+      bad.append(z3.And(sym.b(sym.s_cmp('ge', tot, Fraction(1, 4))), z3.Or(sym.b(sym.s_cmp('le', tot, Fraction(3, 4))), sym.b(sym.s_cmp('ge', tot, Fraction(5, 4))))))
+
+    def rpn(m):
+      kn = np.asarray(trc.tf_run(core.model_np(m, W))[0], dtype=np.float64)
+      norms = np.sum(np.abs(kn), axis=0)
+      return dict(reproduced=bool(np.any((np.abs(norms - 1) > 1e-4) & (norms > 1e-6))), detail=dict(raw_weights=core.model_np(m, W).tolist(), projected=kn.tolist(), norms=norms.tolist()))
+    case.solve('projected-weights-are-a-weighted-average-per-unit', core.any_of(bad), witness=dict(w=W), timeout=tmo, sig=dict(query='norm-projected'),
+               inline_replay=rpn)
   case.solve('twin:projection-changes-something', core.neq_arrays(K, W), expect='sat', kind='twin', timeout=30)
   return case
 
@@ -296,11 +312,13 @@ def cases(tier, seed):
             dict(mono=[-1, -1, -1], units=2, rdom=[[0, 2], [1, 2]], imin=[0.0, 0.0, 0.0], imax=[1.0, 2.0, 0.5], bias=False),
             dict(mono=[1, 1, 1], units=1, rdom=[[0, 1], [1, 2]], imin=[0.0, 1.0, 0.0], imax=[2.0, 4.0, 0.5]),
             dict(mono=[1, 1, 0], units=2, rdom=[[0, 1]], imin=[0.0, -1.0, None], imax=[2.0, 1.0, None]),
-            dict(mono=[1, 1, 1], units=1, mdom=[[0, 1], [0, 2]])):
+            dict(mono=[1, 1, 1], units=1, mdom=[[0, 1], [0, 2]]),
+            dict(mono=[1, 1, 1], units=2, norm=1, bias=False),
+            dict(mono=[1, 1], units=3, norm=1, bias=False)):
     n_ = len(q['mono'])
     q.setdefault('imin', [None] * n_)
     q.setdefault('imax', [None] * n_)
-    nm = 'linproj-m%s-u%d-min%s-max%s-md%s-rd%s' % (''.join(str(m) for m in q['mono']), q['units'], q['imin'], q['imax'], q.get('mdom', []), q.get('rdom', []))
+    nm = 'linproj-m%s-u%d-min%s-max%s-md%s-rd%s-n%s' % (''.join(str(m) for m in q['mono']), q['units'], q['imin'], q['imax'], q.get('mdom', []), q.get('rdom', []), q.get('norm'))
     out.append(dict(name=nm, fn='case_linear_projected', params=dict(q, name=nm), cap=600))
   if tier == 'thorough':
     add(mono=[1, -1, 0, 1, 0], units=3, imin=[0.0, None, -1.0, None, None], imax=[1.0, 2.0, None, None, None])
